@@ -693,8 +693,9 @@ class Unit:
             elif w == "text-sub":
                 # `//@ text-sub OLD => NEW`: substitution in the extracted text of this fn (rewrite SUB; used to resolve an
                 # associated type the verifier cannot express, e.g. a generic associated type, to the type the impl binds it to)
-                a, b = s[3:].strip()[len("text-sub"):].split("=>")
-                spl.setdefault("subs", []).append((a.strip(), b.strip()))
+                a, b = s[3:].strip()[len("text-sub"):].split(" => ", 1)   # the FIRST ` => ` separates old from new
+                # `\n` in either side stands for a line break (anchors that span lines)
+                spl.setdefault("subs", []).append((a.strip().replace("\\n", "\n"), b.strip().replace("\\n", "\n")))
                 i += 1
             elif w == "body" and words[1] == "external":
                 spl["external"] = True
